@@ -41,7 +41,11 @@ func c11GenName(t *rapid.T, label string) string {
 }
 
 // patterns that full/suffix must skip (characters outside the matcher alphabet).
-var c11BadPatterns = []string{"A.com", "a*.com", "a b.com", "é.com", "a.com/", "a$b", "~", "a.CoM", "\x00a"}
+// The last group are runes >= U+0100 whose LOW BYTE is in the matcher alphabet
+// (U+0131 -> '1', U+4E2D -> '-', U+0430 -> '0', U+015F -> '_'): a check that looks at
+// byte(rune) would let them through.
+var c11BadPatterns = []string{"A.com", "a*.com", "a b.com", "é.com", "a.com/", "a$b", "~", "a.CoM", "\x00a",
+	"ışık.com", "中.com", "а.com", "aşk.net", "x.中"}
 
 func c11GenPattern(t *rapid.T, kind consts.RoutingDomainKey, names []string) (p string, bad bool) {
 	switch kind {
